@@ -73,7 +73,12 @@ void Reference::repeat_and_transform(Array<Vec2>& point_array) const {
     Array<Vec2> offsets = {};
 
     if (repetition.type != RepetitionType::None) {
-        repetition.get_extrema(offsets);
+        // The per-axis extrema of an explicit list span its bounding box but not its convex hull
+        if (repetition.type == RepetitionType::Explicit) {
+            repetition.get_offsets(offsets);
+        } else {
+            repetition.get_extrema(offsets);
+        }
         point_array.ensure_slots((offsets.count - 1) * num_points);
         point_array.count *= offsets.count;
     } else {
